@@ -56,7 +56,7 @@ def flat_os(p):
     for k in OS_ORDER:
         v = p.get(k, 0.0)
         out += list(v) if isinstance(v, (list, tuple)) else [v]
-    out += [0.0, 0.0, 0.0]
+    out += [float(p.get("mode", 0)), float(p.get("order", 0)), float(p.get("sm", 0))]      # spare[0..2]
     assert len(out) == 35
     return out
 
@@ -111,16 +111,16 @@ def run_tree(points, variant="plain", timeout=900):
 
 
 def run_spec(cases, variant="plain", timeout=900):
-    """cases: list of (os point dict, mode 0|1, [5 initial values or nan]).  Three result lines per case
-    (fresh, fresh again, re-used object); returns the same tuple as run_tree with 3 N rows (case-major)."""
+    """cases: list of (os point dict (keys order, sm: set-up order and SM input set), mode 0|1, [5 initial values
+    or nan]).  Four result lines per case (fresh, fresh again, the second one called once more without setting
+    anything, the first one with all inputs set again); returns the tuple of run_tree with 4 N rows (case-major)."""
     ncol = layout(variant)["T"]["__n__"][0]
     rows = []
     for p, mode, init in cases:
-        f = flat_os(p)
-        f[32] = float(mode)          # spare[0]
+        f = flat_os(dict(p, mode=mode))
         rows.append(" ".join(hexf(x) if x == x else "nan" for x in f + list(init)))
     text = "spec %d\n" % len(cases) + "\n".join(rows) + "\n"
-    return _parse_tree(_run(text, variant, timeout), ncol, 3 * len(cases))
+    return _parse_tree(_run(text, variant, timeout), ncol, 4 * len(cases))
 
 
 def run_tsig(points, variant="cov", timeout=900):
@@ -248,7 +248,7 @@ BASE_POINTS = {
 SIGN_NAMES = ["Mu", "M1", "M2", "M3", "At", "Ab", "Atau", "Amu"]
 
 
-def os_point(base, tb, signs, k=1.0, force=0.0):
+def os_point(base, tb, signs, k=1.0, force=0.0, order=0, sm=0):
     """on-shell harness input: base point magnitudes, tan(beta), signs of (mu, M1, M2, M3, At, Ab, Atau, Amu)
     (first/second-generation A_u, A_d follow the sign of A_t, A_b; A_e(1,1) follows A_tau), every
     dimensionful SUSY parameter and the renormalisation scale multiplied by k"""
@@ -261,7 +261,7 @@ def os_point(base, tb, signs, k=1.0, force=0.0):
                 Ae=[s["Atau"] * k * b["Ae"][0], s["Amu"] * k * b["Ae"][1], s["Atau"] * k * b["Ae"][2]],
                 Ad=[s["Ab"] * k * b["Ad"][0], s["Ab"] * k * b["Ad"][1], s["Ab"] * k * b["Ad"][2]],
                 Au=[s["At"] * k * b["Au"][0], s["At"] * k * b["Au"][1], s["At"] * k * b["Au"][2]],
-                force=force)
+                force=force, order=order, sm=sm)       # order of the setter calls / SM input set, see setup_os() in harness/mssm.cpp
 
 
 # ---------------------------------------------------------------- hierarchy base points (C06)
@@ -306,9 +306,11 @@ GROUPS = {
     "1Lapprox": ["amu1Lapprox", "amu1Lapprox_nonres", "amu1LWHnu", "amu1LWHmuL", "amu1LBHmuL", "amu1LBHmuR", "amu1LBmuLmuR"],
     "2Lapprox": ["amu2LWHnu", "amu2LWHmuL", "amu2LBHmuL", "amu2LBHmuR", "amu2LBmuLmuR"],
 }
-SKIP = {"sig_lo"}
+SKIP = {"sig_lo", "par_Mu", "nr.par_Mu"} | {pre + "mix_" + x for pre in ("", "nr.") for x in ("Sm", "Stau", "Sb", "St")}
 EPS = 2.0 ** -52
 # quantities that carry a mass-eigenstate index -> sectors whose eigenvectors enter
+H_DEPENDENT = {"amu2LaSferm", "amu2LaCha", "amu2L", "amu2L_nonres", "unc1L", "unc2L"}
+HIGGS_MASSES = {"Mhh", "MAh", "MHpm", "pole_Mhh", "pole_MAh"}
 STATE_INDEXED = {"AAN": ("Chi", "Sm"), "BBN": ("Chi", "Sm"), "AAC": ("Cha",), "BBC": ("Cha",),
                  "lambda_mu_cha": ("Cha",), "lambda_stop": ("St",), "lambda_sbot": ("Sb",), "lambda_stau": ("Stau",)}
 
@@ -342,6 +344,12 @@ def compare_block(lay, A, B, skip=()):
         for n in names:
             grp[n] = S
     kap = conditioning(lay, A)
+    if "Mhh" in lay and "amu2LaSferm" in lay:
+        mh2 = np.nanmin(A[:, col(lay, "Mhh")], axis=1) ** 2
+        s2la = np.maximum(np.abs(A[:, lay["amu2LaSferm"][0]]), np.abs(A[:, lay["amu2LaCha"][0]]))
+    else:
+        mh2, s2la = np.ones(npairs), np.zeros(npairs)
+    hs = np.nanmax(A[:, col(lay, "MAh")], axis=1) ** 2 + A[:, lay["par_Mu"][0]] ** 2 if "MAh" in lay and "par_Mu" in lay else np.zeros(npairs)
     for n, (off, ln) in lay.items():
         if n in SKIP or n in skip or n == "__n__" or ln == 0:
             continue
@@ -358,7 +366,19 @@ def compare_block(lay, A, B, skip=()):
             floor = floor + 256 * EPS * sum(kap[sct] for sct in scts) * amax
         den = np.maximum(np.abs(x), np.abs(y))
         diff = np.abs(x - y)
-        bad = ~(diff <= TOL * den + floor[:, None])          # NaN counts as failure
+        floor = floor[:, None]
+        if (n[3:] if n.startswith("nr.") else n) in HIGGS_MASSES:
+            # Higgs / Goldstone squared masses are eigenvalues of matrices with entries ~ m_A^2 + mu^2 formed as
+            # (mH^2 + mu^2): they are only defined to eps (m_A^2 + mu^2), i.e. the mass to that / (2 m)
+            with np.errstate(all="ignore"):
+                floor = floor + np.nan_to_num(np.where(den > 0, 128 * EPS * hs[:, None] / np.where(den > 0, den, 1.0), 0.0), nan=0.0, posinf=np.finfo(float).max)
+        if (n[3:] if n.startswith("nr.") else n) in H_DEPENDENT:
+            # the 2L(a) terms are functions of m_sf^2/m_h^2, m_cha^2/m_h^2: they inherit the relative uncertainty
+            # eps (m_A^2 + mu^2)/m_h^2 of m_h^2 (times their own size), and so do the sums that contain them
+            with np.errstate(all="ignore"):
+                extra = np.where((s2la > 0) & (mh2 > 0), 128 * EPS * hs / np.where(mh2 > 0, mh2, 1.0) * s2la, 0.0)
+            floor = floor + np.nan_to_num(extra, nan=0.0, posinf=np.finfo(float).max)[:, None]
+        bad = ~(diff <= TOL * den + floor)          # NaN counts as failure
         with np.errstate(all="ignore"):
             rel = np.where(den > 0, diff / den, 0.0)
         worst[n] = float(np.nanmax(rel)) if np.isfinite(rel).any() else float("inf")
